@@ -37,7 +37,11 @@ class _Shim:
         self.sch.lock_release(self)
         return False
 
-    def acquire(self, *a, **k):
+    def acquire(self, blocking=True, timeout=-1):
+        if not blocking or (timeout is not None and timeout >= 0):
+            # a bounded wait may expire: when the attempt is scheduled while another thread holds the lock it fails (the
+            # schedules in which the attempt comes after the release are the ones where the wait was long enough)
+            return self.sch.lock_try_acquire(self)
         self.sch.lock_acquire(self)
         return True
 
@@ -184,6 +188,18 @@ class Scheduler:
                     self.cv.wait()
                 self.turn = None
                 self.state[tid] = 'run'
+
+    def lock_try_acquire(self, shim):
+        tid = self._me()
+        if tid is None:
+            return True
+        self._yield(('acq', id(shim)))
+        with self.cv:
+            if shim.holder is None:
+                shim.holder = tid
+                self.trace.append({'t': tid, 'k': 'acq', 'v': 0})
+                return True
+            return False
 
     def lock_release(self, shim):
         tid = self._me()
